@@ -1,7 +1,10 @@
 /-
 C19 — Exporting and re-importing genesis preserves every custom module's state.
-The full statement ("every record kind survives") is FALSE for four kinds on this tree (recorded
-findings); what is proved is the round trip of every kind a genesis does carry, for any store.
+Four record kinds that the pinned commit did not carry (storage FileProof, rns PrimaryName,
+notifications Block, the jklmint emission record) were repaired in /repo and are carried now; the
+one remaining exception is the *history* of jklmint's per-height emission records, of which the
+genesis carries the newest only (recorded finding).  Proved here: the round trip of every kind a
+genesis carries, for any store; the exact fate of a latest-only kind.
 -/
 import Canine.Genesis.Model
 namespace Canine.Genesis
@@ -66,7 +69,7 @@ theorem C19_validate_accepts_export (keyOf : V → String) (m : AMap String V) (
   rw [this]; exact hwf
 
 /-- A kind that no genesis carries is lost: the imported module has no record of it, whatever
-the store held.  (This is the model of the four recorded findings.) -/
+the store held.  (This was the model of the four repaired findings; `omittedKinds` is empty now.) -/
 theorem C19_omitted_kind_lost (keyOf : V → String) (m : AMap String V) (hne : m ≠ []) :
     importKind keyOf ([] : List V) ≠ m := by
   simp [importKind]; exact fun h => hne h
@@ -75,6 +78,37 @@ theorem C19_omitted_kind_lost (keyOf : V → String) (m : AMap String V) (hne : 
 theorem C19_tables_disjoint :
     (exportedKinds.all (fun p => p.2.all (fun k => !(lookup omittedKinds p.1).contains k))) = true := by
   decide
+
+/-- every record kind the custom modules write is accounted for: carried, latest-only or derived;
+none is omitted any more -/
+theorem C19_no_kind_omitted : omittedKinds = [] := rfl
+
+/-- **Fate of a latest-only kind** (jklmint's per-height emission records): the import holds
+exactly the record of the last height when the store had one — in particular the record the next
+block reads survives — and nothing else. -/
+theorem C19_latest_only_roundtrip (keyOf : V → String) (m : AMap String V) (lastKey : String) (v : V)
+    (hget : AMap.get m lastKey = some v) (hkey : keyOf v = lastKey) :
+    importKind keyOf (exportLatest m lastKey) = [(lastKey, v)] := by
+  simp [importKind, exportLatest, hget, AMap.set, hkey]
+
+theorem C19_latest_only_empty (keyOf : V → String) (m : AMap String V) (lastKey : String)
+    (hget : AMap.get m lastKey = none) :
+    importKind keyOf (exportLatest m lastKey) = [] := by
+  simp [importKind, exportLatest, hget]
+
+/-- the record the next block reads (that of the last height) is readable after the import with
+the same value -/
+theorem C19_latest_record_survives (keyOf : V → String) (m : AMap String V) (lastKey : String) (v : V)
+    (hget : AMap.get m lastKey = some v) (hkey : keyOf v = lastKey) :
+    AMap.get (importKind keyOf (exportLatest m lastKey)) lastKey = some v := by
+  rw [C19_latest_only_roundtrip keyOf m lastKey v hget hkey]; simp [AMap.get]
+
+/-- older records of a latest-only kind are lost (the remaining recorded finding) -/
+theorem C19_latest_only_loses_history (keyOf : V → String) (m : AMap String V) (lastKey k : String) (v : V)
+    (hget : AMap.get m lastKey = some v) (hkey : keyOf v = lastKey) (hk : k ≠ lastKey) :
+    AMap.get (importKind keyOf (exportLatest m lastKey)) k = none := by
+  rw [C19_latest_only_roundtrip keyOf m lastKey v hget hkey]
+  simp [AMap.get]; exact fun h => hk h.symm
 
 /-- non-vacuity: a two-record store of names keyed by "name.tld" round-trips -/
 example : importKind (fun (v : String × Nat) => v.1 ++ ".jkl") (exportKind [("a.jkl", ("a", 1)), ("b.jkl", ("b", 2))])
